@@ -69,8 +69,7 @@ def run(R, tier, rng):
             for i in range(-n - 1, n + 1):
                 add("dc_item " + show(ids) + " " + str(i) + tag, guarded(lambda i=i: fields_of(kinds, mk()[i])), "item", nt, f"obj[{i}]")
             # iteration: entry i consists of the i-th element of every field
-            add("dc_select " + show(ids) + " [4]" + tag + " iter", guarded(lambda: [fields_of(kinds, e) for e in mk()]), "iter", nt, "list(iter(obj))",
-                post=lambda v: None if v is None else [list(t) for t in zip(*v)] if v and v[0] else [])
+            add("dc_iter " + show(ids) + tag, guarded(lambda: [fields_of(kinds, e) for e in mk()]), "iter", nt, "list(iter(obj))")
             # concatenation
             for parts in ([n], [n, 0], [1, n], [n, 2, 1]):
                 objs_ids = []
